@@ -4,6 +4,7 @@ import (
 	"encoding/base64"
 	"fmt"
 	"go/types"
+	"math/big"
 	"regexp"
 	"sort"
 	"strconv"
@@ -436,6 +437,18 @@ func registerStrings(in *Interp) {
 		return Tuple{v, numErr(th, err)}
 	})
 	in.reg("strconv.ParseUint", func(th *Thread, fn *ssa.Function, a []Value) Value {
+		if r, ok := a[0].(*Rope); ok && len(r.Segs) == 1 && r.Segs[0].D != nil && th.concInt(a[1], "base") == 10 {
+			bits := int(th.concInt(a[2], "bits"))
+			if bits == 0 {
+				bits = 64
+			}
+			t := r.Segs[0].D
+			hi := sym.IntConst(new(big.Int).Lsh(big.NewInt(1), uint(bits)))
+			if th.branch(fromBoolTerm(sym.And(sym.ILe(sym.Int64Const(0), t), sym.ILt(t, hi)))) {
+				return Tuple{fromBV(sym.Int2BV(t, 64), intInfo{64, false}), Iface{}}
+			}
+			return Tuple{int64(0), th.newError("strconv.ParseUint: parsing: value out of range or invalid syntax")}
+		}
 		v, err := strconv.ParseUint(th.str(a[0], "ParseUint"), int(th.concInt(a[1], "base")), int(th.concInt(a[2], "bits")))
 		return Tuple{int64(v), numErr(th, err)}
 	})
